@@ -106,6 +106,17 @@ Fixpoint is_prefixb (a b : list byte) : bool :=
   | _, _ => false
   end.
 
+(* application bytes of the records preceding the first record the protocol answers with a fatal
+   error (a handshake record outside the handshake, change_cipher_spec, a record that does not
+   authenticate, a truncated record, close_notify or an alert that is not a warning) *)
+Fixpoint app_before_fatal (evs : list event) : list byte :=
+  match evs with
+  | [] => []
+  | EApp d :: r => d ++ app_before_fatal r
+  | EAlert l c :: r => if negb (N.eqb c 0) && N.eqb l 1 then app_before_fatal r else []
+  | _ => []
+  end.
+
 Definition has_app (evs : list event) : bool := existsb (fun e => match e with EApp _ => true | _ => false end) evs.
 
 (* the first record that is not one of at most 16 warning alerts is application data *)
@@ -152,6 +163,7 @@ Definition check (p : plan) (q : spst) (c : call) (b : obs) : list N :=
        | _ => []
        end) ++
       (if is_prefixb deliv (all_app (q_arr q)) then [] else [12%N]) ++
+      (if is_prefixb deliv (app_before_fatal (q_arr q)) then [] else [17%N]) ++   (* delivered data that follows a record answered with a fatal error *)
       (if q_early q && (negb failed || negb (is_nil (b_data b))) then [11%N] else []) ++
       refuse_check q b
   | CWrite bs =>
